@@ -232,6 +232,7 @@ def run(ctx):
     shared_manifests_are_not_freed(ctx)
     using_walks_carry_a_visited_set(ctx)
     variable_evaluation_is_guarded(ctx)
+    macro_table_holds_no_null(ctx)
     instance_substitution_registers_first(ctx)
     containment_recursion(ctx)
     construction_stacks(ctx)
@@ -2282,3 +2283,65 @@ def variable_evaluation_is_guarded(ctx):
                "the initializer is evaluated only for a variable that is not already being evaluated" if ok else
                "the initializer of a variable is evaluated with no record that the variable is being evaluated")
     ctx.floor("R15.30", "evaluations of a variable's initializer", len(rec), 1)
+
+
+def macro_table_holds_no_null(ctx):
+    """R15.31: every reader of `_manifests` dereferences the manifest it finds (expansion, `defined`, `#if`): the table never
+    holds a null pointer.  One writer has a value that CAN be null: `#pragma pop_macro` restores what `push_macro` saved, and
+    for a macro that was undefined at the time that is nullptr ("make it undefined again").  Every store into the table
+    - insert(value_type(name, m)), `it->second = m`, `_manifests[name] = m` - is therefore of a freshly allocated
+    manifest or sits behind evidence that m is not null.  (Seed S10-C15: pop_macro inserted the saved nullptr when the
+    name was still undefined; the next use of the name was a null dereference.)"""
+    db = ctx.db
+    ctx.rule("R15.31", "a value stored into CPPPreprocessor::_manifests is a `new CPPManifest`, a local that only ever holds one, or a local behind a test that it is not null")
+    n = 0
+    for f in db.functions:
+        if not f.name.startswith("CPPPreprocessor::"):
+            continue
+        iters = set()
+        for y in f.walk():
+            if y.get("k") == "decls":
+                for dd in y["d"]:
+                    if dd.get("init") is not None and any(z.get("k") == "mem" and (z.get("n") or "").endswith("::_manifests") for z in walk(dd["init"])):
+                        iters.add(dd["d"])
+        stores = []
+        for y in f.walk():
+            if y.get("k") == "call" and callee_short(y) in ("insert", "emplace") and "this" in y and (field_of(strip_casts(peel(y["this"]))) or "").endswith("::_manifests"):
+                vals = [z for a in y.get("a", []) for z in walk(a) if z.get("k") in ("ctor", "call") and len(z.get("a", [])) == 2 and "pair" in (z.get("f") or "")]
+                if vals:
+                    stores.append((y, vals[0]["a"][1]))
+            t = assigned_target(y)
+            if t:
+                tgt = strip_casts(peel(t[0]))
+                if tgt is not None and tgt.get("k") == "mem" and (tgt.get("n") or "").endswith("pair::second") and \
+                   any(z.get("k") == "ref" and z.get("d") in iters for z in walk(tgt)):
+                    stores.append((y, t[1]))
+                if tgt is not None and tgt.get("k") == "call" and callee_short(tgt) == "operator[]" and any(z.get("k") == "mem" and (z.get("n") or "").endswith("::_manifests") for z in walk(tgt)):
+                    stores.append((y, t[1]))
+        for y, val in stores:
+            n += 1
+            v = strip_casts(peel(val))
+            ok, why = False, "the stored value is not shown to be non-null"
+            if v is not None and v.get("k") == "new":
+                ok, why = True, "a freshly allocated manifest"
+            else:
+                r = local_ref(v) if v is not None else None
+                if r is not None:
+                    d = r["d"]
+                    defs = []
+                    for z in f.walk():
+                        if z.get("k") == "decls":
+                            defs += [dd.get("init") for dd in z["d"] if dd.get("d") == d]
+                        tz = assigned_target(z)
+                        if tz and (local_ref(tz[0]) or {}).get("d") == d:
+                            defs.append(tz[1])
+                    if defs and all(x is not None and (strip_casts(peel(x)) or {}).get("k") == "new" for x in defs):
+                        ok, why = True, "`%s` only ever holds a freshly allocated manifest" % r.get("n")
+                    else:
+                        e = G.edges_where(f, G.local_is_null(d, null=False)) + G.edges_where(f, G.local_true(d))
+                        if e and G.gated(f, y, e):
+                            ok, why = True, "behind a test that `%s` is not null" % r.get("n")
+                        else:
+                            why = "`%s` may be null here (it is not always a fresh allocation and no test precedes the store)" % r.get("n")
+            ctx.ob("R15.31", "%s|store#%d|never-null" % (f.name, n), ok, f.loc(y), why)
+    ctx.floor("R15.31", "stores into the macro table", n, 4)
